@@ -201,7 +201,7 @@ def check_C02(tier, rng, rep):
     from . import queries
     quick = tier == "quick"
     for un in (["U2cross", "U3hole"] if quick else U2 + U3):
-        rep.add_tlc("PlaneThm/" + un, models.plane_thm(un, ["ThmKindShape", "ThmLoops", "ThmLoopCorners"]))
+        rep.add_tlc("PlaneThm/" + un, models.plane_thm(un, ["ThmKindShape", "ThmLoops", "ThmLoopCorners", "ThmWindingTable"]))
     proper = lambda st, r: r not in (0,)
     if quick:
         jobs = region_jobs(U2, lambda k: [(POLY + CURVED)[k % 6]], rng, per_universe=8, pred=proper)
@@ -223,7 +223,12 @@ def check_C03(tier, rng, rep):
     from . import queries
     quick = tier == "quick"
     for un in (["U2cross", "U3hole"] if quick else U2 + U3):
-        rep.add_tlc("PlaneThm/" + un, models.plane_thm(un, ["ThmSubset", "ThmBdryIn"]))
+        rep.add_tlc("PlaneThm/" + un, models.plane_thm(un, ["ThmSubset", "ThmBdryIn", "ThmContainsSimple"]))
+    # the pinned short-cut ("two unbounded simple shapes: return True") must be refuted by TLC
+    rp = models.plane_thm("U2notch", ["RefutedContainsSimplePinned"])
+    rep.cov["tlc_runs"].append({"model": "PlaneThm/U2notch pinned __contains_simple (expected counterexample)", "violated": rp.violated, "distinct_states": rp.distinct})
+    if rp.violated != "RefutedContainsSimplePinned":
+        rep.machinery.append("the pinned containment short-cut should be refuted on U2notch but TLC says %r" % rp.violated)
     un = "U2bite" if quick else "U2notch"
     rep.add_tlc("ShapeSys/%s/r2" % un, models.shapesys_check(un, regs=2, maxobj=4, props=["SubsetLaw"], invs=["TypeOK"], acts=("mkreg", "query")))
     if quick:
@@ -571,9 +576,9 @@ def check_C12(tier, rng, rep):
     """results do not depend on position, orientation or unit of length"""
     from . import queries
     quick = tier == "quick"
-    rep.add_tlc("ShapeSys/U2corner/r2/frames", models.shapesys_check("U2corner", regs=2, maxobj=4, gens=("m1", "M1", "s1", "r1"), maxframe=2,
+    rep.add_tlc("ShapeSys/U2corner/r2/frames", models.shapesys_check("U2corner", regs=2, maxobj=4, gens=("m1", "s1", "r1"), maxframe=1,
                                                                       props=["ResultIsSetAlgebra", "OperandsUnchanged"], invs=["TypeOK", "Canonical"],
-                                                                      acts=("make", "transform", "bin", "alias"), ops=("or", "and")))
+                                                                      acts=("make", "transform", "bin", "alias"), ops=("or", "and"), tag="MCS_C12"))
     o = {"check_c10": False}
     sims = ["sim-%s-%s" % (n, k) for n in SIM_NAMES for k in ("float", "frac", "quad") if not (n == "mm" and k == "quad")]
     if quick:
